@@ -1,7 +1,204 @@
 package main
 
-// Replay of counterexamples against the real code (templates are added per function family).
+// Replay of counterexamples against the real code.
+//
+// For a refuted obligation the engine asks the solver for the values of the obligation's
+// observables (parameters, lengths of slice parameters, scalar fields of the receiver at entry
+// and at the first lock acquisition), renders a Go test from the template of the obligation's
+// family, injects it with `go test -overlay` (nothing is written into /repo) and runs it.
+
+import (
+	"encoding/json"
+	"fmt"
+	"go/types"
+	"os"
+	"os/exec"
+	"path/filepath"
+	"regexp"
+	"sort"
+	"strings"
+	"time"
+)
+
+type NamedTerm struct {
+	Name string
+	T    *Term
+}
+
+// observablesOf lists the source-level quantities whose model values a replay needs.
+func (e *Engine) observablesOf(fr *Frame, st *State) []NamedTerm {
+	top := fr.top
+	var out []NamedTerm
+	add := func(name string, t *Term) {
+		if t == nil {
+			return
+		}
+		switch {
+		case t.S == IntSort || t.S == BoolSort:
+			out = append(out, NamedTerm{name, t})
+		case t.S.IsSlice():
+			out = append(out, NamedTerm{"len(" + name + ")", Acc(t, "len")})
+		case t.S.IsMap():
+			out = append(out, NamedTerm{"len(" + name + ")", Acc(t, "card")})
+		}
+	}
+	sig := top.fn.Obj.Type().(*types.Signature)
+	for i := 0; i < sig.Params().Len(); i++ {
+		p := sig.Params().At(i)
+		if v, ok := top.entry.vars[p]; ok {
+			add(p.Name(), v)
+		}
+	}
+	if r := sig.Recv(); r != nil {
+		if rv, ok := top.entry.vars[r]; ok {
+			if n := namedOf(r.Type()); n != nil {
+				if stt, ok := n.Underlying().(*types.Struct); ok {
+					owner := typeName(n)
+					states := map[string]*State{"": top.entry}
+					if s1 := st.snaps["lock1"]; s1 != nil {
+						states["@lock1"] = s1
+					}
+					for tag, s := range states {
+						for i := 0; i < stt.NumFields(); i++ {
+							f := stt.Field(i)
+							if isSyncType(f.Type()) || isStructVal(f.Type()) {
+								continue
+							}
+							key := e.fieldKey(owner, f)
+							h, ok := s.heap[key]
+							if !ok {
+								if tag != "" {
+									continue
+								}
+								h = Var("H0$"+smtIdent(strings.TrimPrefix(key, jivaMod+"/")), e.fieldHeapSort(f))
+							}
+							add(r.Name()+"."+f.Name()+tag, Select(h, rv))
+						}
+					}
+				}
+			}
+		}
+	}
+	sort.Slice(out, func(i, j int) bool { return out[i].Name < out[j].Name })
+	return out
+}
+
+var valRe = regexp.MustCompile(`\(\s*(obs!\d+)\s+((?:\(-\s*\d+\))|-?\d+|true|false)\s*\)`)
+
+// modelValues re-solves a refuted obligation asking for the observables; slice lengths are
+// first bounded (small inputs replay better), then unbounded.
+func modelValues(o *Obligation, hyps []*Term) map[string]string {
+	if len(o.Obs) == 0 {
+		return nil
+	}
+	for _, bound := range []int64{4096 * 16, 1 << 40, -1} {
+		var extra []*Term
+		var b strings.Builder
+		for i, nt := range o.Obs {
+			nm := fmt.Sprintf("obs!%d", i)
+			extra = append(extra, Eq(Var(nm, nt.T.S), nt.T))
+			if bound > 0 && strings.HasPrefix(nt.Name, "len(") {
+				extra = append(extra, Le(nt.T, IntLit(bound)))
+			}
+			b.WriteString(nm + " ")
+		}
+		src := EmitSMT(append(append([]*Term(nil), hyps...), extra...), o.Goal, true)
+		src = strings.Replace(src, "(get-model)\n", "(get-value ("+b.String()+"))\n", 1)
+		f := strings.TrimSuffix(o.SMT, ".smt2") + ".obs.smt2"
+		os.WriteFile(f, []byte(src), 0o644)
+		v, out, _ := runSolver(solvers[0], f, 10)
+		if v != "sat" {
+			continue
+		}
+		vals := map[string]string{}
+		for _, m := range valRe.FindAllStringSubmatch(out, -1) {
+			var idx int
+			fmt.Sscanf(m[1], "obs!%d", &idx)
+			val := strings.NewReplacer("(", "", ")", "", " ", "").Replace(m[2])
+			vals[o.Obs[idx].Name] = val
+		}
+		return vals
+	}
+	return nil
+}
+
+type replayTemplate struct {
+	match func(o *Obligation) bool
+	pkg   string // repo-relative package dir
+	gen   func(o *Obligation, vals map[string]string) (src string, ok bool)
+	tags  string
+}
+
+var replayTemplates []replayTemplate
 
 func runReplay(rec map[string]interface{}, o *Obligation) {
+	rec["model_values"] = o.Vals
+	for _, t := range replayTemplates {
+		if !t.match(o) {
+			continue
+		}
+		if o.Vals == nil {
+			rec["replay"] = "no concrete values: the solver gave no model for this obligation"
+			return
+		}
+		src, ok := t.gen(o, o.Vals)
+		if !ok {
+			rec["replay"] = "model values outside what the replay template can build (e.g. an allocation that large)"
+			return
+		}
+		out, verdict := execReplay(replayRepo, t.pkg, t.tags, src)
+		rec["replay_test"] = src
+		rec["replay_output"] = out
+		rec["replay"] = verdict
+		if verdict == "REPLAY-REPRODUCED" {
+			o.Output += "\nREPLAY-REPRODUCED"
+		}
+		return
+	}
 	rec["replay"] = "no replay template for this obligation family; the solver output above is the evidence"
+}
+
+var replayRepo = "/repo"
+
+// execReplay injects src as zz_replay_test.go into pkg via -overlay and runs it.
+func execReplay(repo, pkg, tags, src string) (string, string) {
+	dir, err := os.MkdirTemp("/var/tmp", "jv-replay-")
+	if err != nil {
+		return err.Error(), "REPLAY-ERROR"
+	}
+	defer os.RemoveAll(dir)
+	tf := filepath.Join(dir, "zz_replay_test.go")
+	os.WriteFile(tf, []byte(src), 0o644)
+	ov := map[string]map[string]string{"Replace": {filepath.Join(repo, pkg, "zz_replay_test.go"): tf}}
+	data, _ := json.Marshal(ov)
+	of := filepath.Join(dir, "ov.json")
+	os.WriteFile(of, data, 0o644)
+	args := []string{"test", "-overlay", of, "-vet=off", "-count=1", "-timeout", "60s", "-run", "TestZZReplay", "-v"}
+	if tags != "" {
+		args = append(args, "-tags", tags)
+	}
+	args = append(args, "./"+pkg)
+	cmd := exec.Command("go", args...)
+	cmd.Dir = repo
+	cmd.Env = append(os.Environ(), "GOFLAGS=-mod=mod", "GOPROXY=off", "GOSUMDB=off", "GOTOOLCHAIN=local")
+	done := make(chan struct{})
+	var out []byte
+	go func() { out, _ = cmd.CombinedOutput(); close(done) }()
+	select {
+	case <-done:
+	case <-time.After(120 * time.Second):
+		cmd.Process.Kill()
+		return "timeout", "REPLAY-ERROR"
+	}
+	s := string(out)
+	if len(s) > 6000 {
+		s = s[:6000]
+	}
+	switch {
+	case strings.Contains(s, "REPLAY-REPRODUCED"):
+		return s, "REPLAY-REPRODUCED"
+	case strings.Contains(s, "REPLAY-NOT-REPRODUCED"):
+		return s, "REPLAY-NOT-REPRODUCED"
+	}
+	return s, "REPLAY-ERROR"
 }
